@@ -473,3 +473,147 @@ def nuclide_temperatures_with_fixed_weights_are_the_stated_means(fluxWeighted: b
     fe = [w1 * 0.03 * 0.75 * 1.0, w2 * 0.03 * 0.5 * 3.0]
     assert eq(bc.avgNucTemperatures["FE56"] * (fe[0] + fe[1]), fe[0] * T12 + fe[1] * T22)
     assert len(bc.avgNucTemperatures) == 2
+
+
+# ------------------------------------------------------------------------------------------ environment groups
+CrossSectionGroupManager = repo("armi.physics.neutronics.crossSectionGroupManager:CrossSectionGroupManager")
+
+
+class XsOpts:
+    """XSModelingOptions stand-in: only xsTempIsotope (the isotope whose temperature defines the temperature group)"""
+
+
+class EnvBlk(Blk):
+    """block stand-in for the grouping kernel: getMicroSuffix() = its stored XS id; p.envGroupNum a plain stored value
+    (the real setter also derives the letter and refuses numbers >= 52, fix c08712d; not in the subset: nested def)"""
+
+    def getMicroSuffix(self):
+        return self.xsID
+
+
+def env_block(bu, tempC, group0):
+    """one component holding U238 at tempC: getBlockNuclideTemperature (real code) is then tempC"""
+    c = new(Comp, order=0, temperatureInC=tempC, mass=1.0, volFrac=1.0, p=new(Params, numberDensities={"U238": 0.02}))
+    return new(EnvBlk, vol=2.0, height=1.0, eligible=True, dens={}, comps=[c], xsID="AA", p=new(Params, percentBu=bu, envGroupNum=group0))
+
+
+def manager(buBounds, tempBounds, isotope):
+    """the manager WITHOUT interfaces.Interface.__init__ (reactor / settings plumbing); the group structure is set by
+    the REAL _setBuGroupBounds / _setTempGroupBounds; cs is the settings object viewed as a map"""
+    m = new(CrossSectionGroupManager, _envGroupUpdatesEnabled=True, _buGroupBounds=[], _tempGroupBounds=[],
+            cs={xsgm.CONF_CROSS_SECTION: {"AA": new(XsOpts, xsTempIsotope=isotope)}})
+    m._setBuGroupBounds(buBounds)
+    m._setTempGroupBounds(tempBounds)
+    return m
+
+
+def first_index(x, bounds):
+    """specification: the group of x is the first interval (.., b0], (b0, b1], ... (b_last, inf) containing it"""
+    return sum(1 for b in bounds if x > b)
+
+
+GEN7 = {"nb": [0, 1, 2, 3], "nt": [0, 1, 2], "B1": (0.1, 30.0), "B2": (0.1, 60.0), "B3": (0.1, 100.0), "U1": (-200.0, 800.0), "U2": (-200.0, 1500.0),
+        "bu": (0.0, 100.0), "bu2": (0.0, 100.0), "T": (-100.0, 2000.0), "T2": (-100.0, 2000.0), "g0": [0, 3, 7]}
+
+
+@lemma(gen=GEN7)
+def every_block_gets_the_one_group_of_its_burnup_and_temperature(nb: int, nt: int, B1: float, B2: float, B3: float, U1: float, U2: float,
+                                                                bu: float, T: float, g0: int, useTemp: bool):
+    """_updateEnvironmentGroups with 0..3 burnup bounds and 0..2 temperature bounds (lengths enumerated, values
+    symbolic and ascending) and a block with arbitrary burnup / temperature (values above the last bound included)"""
+    nb = choose(nb, 0, 3)
+    nt = choose(nt, 0, 2)
+    bb, tb = [B1, B2, B3][:nb], [U1, U2][:nt]
+    assume(all(0 < b <= 100 for b in bb) and all(bb[i] <= bb[i + 1] for i in range(nb - 1)))
+    assume(all(u >= -273.15 for u in tb) and all(tb[i] <= tb[i + 1] for i in range(nt - 1)))
+    m = manager(bb, tb, "U238" if useTemp else None)
+    assert len(m._buGroupBounds) == nb + 1 and len(m._tempGroupBounds) == nt + 1, "one open-ended group above the last bound"
+    b = env_block(bu, T, g0)
+    m._updateEnvironmentGroups([b])
+    nBu, nT = nb + 1, nt + 1
+    g = b.p.envGroupNum
+    if nBu == 1 and nT == 1:
+        assert g == g0, "a single group: the block keeps its group"
+    else:
+        i = first_index(bu, bb)
+        j = first_index(T, tb) if useTemp else 0
+        assert 0 <= g < nBu * nT, "exactly one of the nBu x nT groups"
+        assert g % nBu == i and g // nBu == j, "the group encodes (temperature group, burnup group) injectively"
+        if i < nb:
+            assert bu <= bb[i], "at most the upper bound of its group"
+        if i > 0:
+            assert bu > bb[i - 1], "above the upper bound of the group below"
+        if useTemp and j < nt:
+            assert T <= tb[j]
+        if useTemp and j > 0:
+            assert T > tb[j - 1]
+
+
+@lemma(gen=GEN7)
+def environment_group_is_monotone_and_determined_by_the_values(nb: int, nt: int, B1: float, B2: float, B3: float, U1: float, U2: float,
+                                                              bu: float, T: float, bu2: float, T2: float, byTemp: bool):
+    """two blocks in one call: 1..3 burnup bounds without temperature groups, or (byTemp) 1..2 temperature bounds with
+    a single burnup group (lengths enumerated, values symbolic)"""
+    nb = 0 if byTemp else choose(nb, 1, 3)
+    nt = choose(nt, 1, 2) if byTemp else 0
+    bb, tb = [B1, B2, B3][:nb], [U1, U2][:nt]
+    assume(all(0 < b <= 100 for b in bb) and all(bb[i] <= bb[i + 1] for i in range(nb - 1)))
+    assume(all(u >= -273.15 for u in tb) and all(tb[i] <= tb[i + 1] for i in range(nt - 1)))
+    m = manager(bb, tb, "U238")
+    b1, b2 = env_block(bu, T, 0), env_block(bu2, T2, 0)
+    m._updateEnvironmentGroups([b1, b2])
+    g1, g2 = b1.p.envGroupNum, b2.p.envGroupNum
+    if byTemp:
+        assert implies(T <= T2, g1 <= g2), "temperature group is monotone in the temperature"
+        assert implies(T == T2, g1 == g2), "determined by the temperature"
+    else:
+        assert implies(bu <= bu2, g1 <= g2), "burnup group is monotone in the burnup"
+        assert implies(bu == bu2, g1 == g2), "determined by the burnup"
+
+
+@lemma(gen={"nb": [0, 1, 2, 3], "B1": (-5.0, 110.0), "B2": (-5.0, 110.0), "B3": (-5.0, 110.0)})
+def burnup_group_structure_is_validated(nb: int, B1: float, B2: float, B3: float):
+    """_setBuGroupBounds ('Raises ValueError if the provided burnup groups are invalid'): 0..3 bounds (enumerated)"""
+    nb = choose(nb, 0, 3)
+    bb = [B1, B2, B3][:nb]
+    m = new(CrossSectionGroupManager, _buGroupBounds=None)
+    try:
+        m._setBuGroupBounds(bb)
+        refused = False
+    except ValueError:
+        refused = True
+    valid = all(0 < b <= 100 for b in bb) and all(bb[i] <= bb[i + 1] for i in range(nb - 1))
+    assert refused == (not valid), "accepted exactly when every bound is in (0, 100] and the bounds ascend"
+    if not refused:
+        assert len(m._buGroupBounds) == nb + 1 and all(eq(m._buGroupBounds[i], bb[i]) for i in range(nb))
+        assert all(b < m._buGroupBounds[nb] for b in bb) and 100.0 < m._buGroupBounds[nb], "the last group is open-ended"
+    else:
+        assert m._buGroupBounds is None, "a refused structure changes nothing"
+
+
+@lemma(gen={"nt": [0, 1, 2], "U1": (-400.0, 900.0), "U2": (-400.0, 900.0)})
+def temperature_group_structure_is_validated(nt: int, U1: float, U2: float):
+    nt = choose(nt, 0, 2)
+    tb = [U1, U2][:nt]
+    m = new(CrossSectionGroupManager, _tempGroupBounds=None)
+    try:
+        m._setTempGroupBounds(tb)
+        refused = False
+    except ValueError:
+        refused = True
+    valid = all(u >= -273.15 for u in tb) and all(tb[i] <= tb[i + 1] for i in range(nt - 1))
+    assert refused == (not valid), "accepted exactly when no bound is below absolute zero and the bounds ascend"
+    if not refused:
+        assert len(m._tempGroupBounds) == nt + 1 and all(eq(m._tempGroupBounds[i], tb[i]) for i in range(nt))
+    else:
+        assert m._tempGroupBounds is None
+
+
+@lemma(gen=GEN7)
+def disabled_updates_leave_the_groups_alone(B1: float, bu: float, T: float, g0: int):
+    assume(0 < B1 <= 100)
+    m = manager([B1], [], None)
+    m._envGroupUpdatesEnabled = False
+    b = env_block(bu, T, g0)
+    m._updateEnvironmentGroups([b])
+    assert b.p.envGroupNum == g0
